@@ -96,6 +96,15 @@ def handle : Handler := fun op inp impl => do
                  s!"replicas:{bucket s.replicas}", s!"partition:{ioKind s.partition}",
                  s!"writes:{r.writes.length}"]
       ++ (if inv s then ["inv:ok"] else ["inv:no"])
+      ++ (if s.new.isNone && r.new.isSome then ["act:create"] else [])
+      ++ (if s.new.isSome && optSpec s.new < optSpec r.new then ["act:newUp"] else [])
+      ++ (if optSpec r.new < optSpec s.new then ["act:newDown"] else [])
+      ++ (if sumSpec s.olds < sumSpec r.olds then ["act:oldUp"] else [])
+      ++ (if sumSpec r.olds < sumSpec s.olds then ["act:oldDown"] else [])
+      ++ (if r.writes.isEmpty then ["act:none"] else [])
+      ++ (if unhealthyOld s > 0 && inScope s then ["state:unhealthyOld"] else [])
+      ++ (if (match s.new with | some n => s.olds.any (fun o => decide (n.created < o.created)) | none => false)
+          then ["state:newOlderThanSomeOld"] else [])
       ++ (if lowerBoundRegion s && inScope s then ["guard:lowerBound"] else [])
       ++ (if stale s && inScope s then ["guard:stale"] else [])
       ++ (if r.err then ["model:err"] else [])
